@@ -242,8 +242,32 @@ def run(tier, seed, replay=None):
             from mindsdb_sql import parse_sql
             from sqlcorpus import harvest
             base = [s for s in harvest()[dialect] if len(s) < 200][:40] + ['select 1', 'show databases', 'select a from t where b = 2']
-            wraps = [';{}', ';;{}', ' ;\n; {}', '{};;', '{} ; ;', '; {} ;', '{}\n;\n', '\n\n{}', ',{}', '){}', '{} )', '({}', ';', '; ', ';;;']
+            wraps = [';{}', ';;{}', ' ;\n; {}', '{};;', '{} ; ;', '; {} ;', '{}\n;\n', '\n\n{}', ',{}', '){}', '{} )', '({}', ';', '; ', ';;;',
+                     "{} @'v'", '@"v" {}', '{} @@`v`', "@@'sv' {}", '{} @v', '{} 1', "{} 'x'", '{} "y"', '{} `z`', '{} ?']
+            Lcls = type(__import__('mindsdb_sql').get_lexer_parser(dialect)[0])
+
+            def raw_count(text):
+                """number of tokens the lexer's own patterns find in the text (token functions not called): what the parser must see"""
+                pos, n, ign = 0, 0, getattr(Lcls, 'ignore', '')
+                while pos < len(text):
+                    if text[pos] in ign:
+                        pos += 1
+                        continue
+                    m = Lcls._master_re.match(text, pos)
+                    if not m or m.end() == pos:
+                        return None
+                    # sly strips the ignore_ prefix from the names of ignored rules and keeps them in _ignored_tokens
+                    if not ((m.lastgroup or '').startswith('ignore_') or m.lastgroup in getattr(Lcls, '_ignored_tokens', ())):
+                        n += 1
+                    pos = m.end()
+                return n
             texts_ = [w.format(s) for s in base for w in wraps] if not replay else [rp['sql_text']]
+            if not replay:
+                for s in base[:25]:
+                    ws_ = s.split(' ')
+                    for extra in ("@'v'", '@"v"', '@@`v`', '@v', ';'):
+                        k_ = rng.randrange(1, len(ws_)) if len(ws_) > 1 else 1
+                        texts_.append(' '.join(ws_[:k_] + [extra] + ws_[k_:]))
             n_acc = 0
             for txt in texts_:
                 try:
@@ -255,7 +279,11 @@ def run(tier, seed, replay=None):
                 spec_text = re.sub(r'[\s;]+$', '', txt)
                 try:
                     stoks = lex(dialect, spec_text)
-                    why = None if earley_accepts(sd, [num[t.type] for t in stoks]) else 'its token sequence is not a sentence of the grammar'
+                    rc_ = raw_count(spec_text)
+                    if rc_ is not None and rc_ != len(stoks):
+                        why = f'the lexer hands {len(stoks)} tokens to the parser where its patterns find {rc_}: a token of the text is skipped'
+                    else:
+                        why = None if earley_accepts(sd, [num[t.type] for t in stoks]) else 'its token sequence is not a sentence of the grammar'
                 except Exception as e:
                     why = f'the lexer rejects it ({type(e).__name__})'
                     stoks = []
